@@ -1,6 +1,7 @@
 CONSTANTS
-  Workers <- MCWorkers1
-  NTs <- MCNTs
+  Workers <- Workers_tset
+  NTs <- NTs_tset
+  ThreadNames <- Threads_tset
   WyFix = FALSE
   AllowSpurious = FALSE
 INIT Init_tset
